@@ -138,11 +138,14 @@ int ref_add_col (RefLP * L, const mpq_t obj, const mpq_t lo, int loinf, const mp
 }
 int ref_add_row (RefLP * L, char sense, const mpq_t rhs, const mpq_t range, const char *name)
 {
+	/* rhs / range may point into L's own arrays, which ref_grow moves */
+	mpq_t rh, rg; mpq_init (rh); mpq_init (rg); mpq_set (rh, rhs); if (range) mpq_set (rg, range);
 	ref_grow (L, L->n, L->m + 1);
 	int r = L->m++;
 	for (int c = 0; c < L->n; c++) mpq_set_ui (REF_A (L, r, c), 0, 1);
-	mpq_set (L->rhs[r], rhs);
-	if (sense == 'R' && range) mpq_set (L->range[r], range); else mpq_set_ui (L->range[r], 0, 1);
+	mpq_set (L->rhs[r], rh);
+	if (sense == 'R' && range) mpq_set (L->range[r], rg); else mpq_set_ui (L->range[r], 0, 1);
+	mpq_clear (rh); mpq_clear (rg);
 	L->sense[r] = sense;
 	L->rname[r] = xstrdup (name);
 	return r;
